@@ -168,16 +168,29 @@ type SimSigner struct {
 	inner crypto.Signer
 	p     *Plane
 	Calls int
+	// Delay is the simulated latency of the signing device (a token, an HSM):
+	// the simulated clock advances by this much while Sign is in progress.
+	Delay time.Duration
 }
 
 func (s *SimSigner) Public() crypto.PublicKey { return s.inner.Public() }
 
 func (s *SimSigner) Sign(rand io.Reader, digest []byte, opts crypto.SignerOpts) ([]byte, error) {
 	s.Calls++
+	if s.p.yield != nil {
+		s.p.yield("signer.Sign:enter")
+	}
 	if f := s.p.hit(cSign); f != nil {
 		return nil, ErrInjected
 	}
-	return s.inner.Sign(rand, digest, opts)
+	if s.Delay > 0 {
+		time.Sleep(s.Delay)
+	}
+	sig, err := s.inner.Sign(rand, digest, opts)
+	if s.p.yield != nil {
+		s.p.yield("signer.Sign:exit")
+	}
+	return sig, err
 }
 
 // ---------------------------------------------------------------- reader
